@@ -140,6 +140,9 @@ type Client struct {
 	// lostHolder: resources that stayed held when another held resource
 	// referring to them was dropped (see staleSentExplained)
 	lostHolder map[string]bool
+	// derivedDeleted: resources of which the client was sent a copy after a
+	// delete event that did not come from the service deleting them
+	derivedDeleted map[string]bool
 	// DeletedSeen: rids for which the client has received a delete event
 	DeletedSeen map[string]bool
 	DeletedSeq  map[string]uint64 // ... and when
@@ -147,7 +150,7 @@ type Client struct {
 
 func (s *Sim) newClient() *Client {
 	c := &Client{s: s, Idx: len(s.Clients), State: "new", Proto: protoLegacy, Reqs: map[uint64]*CReq{},
-		F3rids: map[string]bool{}, directSince: map[string]int{}, UnsubReasons: map[string]string{}, ErrSeen: map[string]bool{}, ivFail: map[string]string{}, getSet: map[string]int{}, lostHolder: map[string]bool{}, DeletedSeen: map[string]bool{}, DeletedSeq: map[string]uint64{}, Direct: map[string]int{}, Fuzzy: map[string]bool{}, Cache: map[string]*CRes{}, Revoked: map[string]int{}, CIdx: -1}
+		F3rids: map[string]bool{}, directSince: map[string]int{}, UnsubReasons: map[string]string{}, ErrSeen: map[string]bool{}, ivFail: map[string]string{}, getSet: map[string]int{}, lostHolder: map[string]bool{}, derivedDeleted: map[string]bool{}, DeletedSeen: map[string]bool{}, DeletedSeq: map[string]uint64{}, Direct: map[string]int{}, Fuzzy: map[string]bool{}, Cache: map[string]*CRes{}, Revoked: map[string]int{}, CIdx: -1}
 	c.Name = fmt.Sprintf("k%d", c.Idx)
 	s.Clients = append(s.Clients, c)
 	return c
@@ -484,8 +487,16 @@ func (c *Client) store(rid string, r *CRes, f *Frame) {
 		c.s.probe("resource_resent_while_held")
 		c.closeInterval(old, "resent")
 	}
+	if c.derivedDeleted[rid] && !c.DeletedSeen[rid] && r.Kind != 'e' {
+		// an earlier copy was ambiguous already (see below); the gateway may keep
+		// handing out its copy of the deleted resource for as long as something
+		// on the connection refers to it
+		r.Ambiguous = true
+		c.s.stat("exempt.resent_after_derived_delete", 1)
+	}
 	if c.DeletedSeen[rid] {
 		if _, v := c.s.W.lookup(c.expandCID(rid)); v != nil && !v.Deleted && r.Kind != 'e' {
+			c.derivedDeleted[rid] = true
 			// the delete event came from a not-found answer to a reset re-fetch or
 			// query request while the resource is still there. The copy sent now is
 			// either a new load (and lives) or the gateway's copy of the deleted
